@@ -85,7 +85,8 @@ func NewRun(id, tier string) *Run {
 		}
 	}
 	r := &Run{
-		ID: id, Tier: tier, Seed: seed, Quick: tier != "thorough",
+		// VERIF_RACE_PASS: the second, race-instrumented pass of a thorough run uses the quick case counts (2-20x slower)
+		ID: id, Tier: tier, Seed: seed, Quick: tier != "thorough" || os.Getenv("VERIF_RACE_PASS") != "",
 		start:       time.Now(),
 		distinct:    map[string]struct{}{},
 		counters:    map[string]int64{},
